@@ -688,3 +688,151 @@ def mode_reserve_floor(ctx):
         else:
             ctx.violation(key, f.loc(0), 'the caller\'s extra_size_before is passed on without `max(.., %s::EXTRA_SIZE_BEFORE = %d)`: the LZ encoder keeps less '
                           'history than this mode reads (a maximum-distance repeat right after a window move starts in front of the buffer)' % (mode, val))
+
+
+# --------------------------------------------------------------------------- DIST-BELOW-FULL / PENDING-PAIR-DEC (round 12)
+
+def _lin(e, syms):
+    """Linear form {sym: coef, 1: const} of e over the leaf names in `syms` (dict expr_str -> name); None if not linear."""
+    e = _strip(e)
+    if e[0] == 'const' and isinstance(e[2], int):
+        return {1: e[2]}
+    s = expr_str(e)
+    if s in syms:
+        return {syms[s]: 1}
+    if e[0] == 'bin' and e[1].replace('WithOverflow', '') in ('Add', 'Sub'):
+        a, b = _lin(e[2], syms), _lin(e[3], syms)
+        if a is None or b is None:
+            return None
+        sg = 1 if e[1].startswith('Add') else -1
+        out = dict(a)
+        for k, v in b.items():
+            out[k] = out.get(k, 0) + sg * v
+        return out
+    return None
+
+
+@rule('DIST-BELOW-FULL', ['C06', 'C01'], floor=1)
+def dist_below_full(ctx):
+    """`LZDecoder::repeat(dist, len)` copies from `pos - dist - 1` (cyclically): the byte it starts from exists only if
+    dist < full (full = number of valid dictionary bytes). The method that takes a distance parameter, returns a
+    Result and computes `.. - dist - 1` must therefore reach that arithmetic only under a guard that implies
+    dist - full <= -1, its other edge returning Err. `dist > full` as the rejecting test lets dist == full through:
+    with an empty dictionary the first symbol can be a match (debug: assertion / subtraction overflow, release: a
+    zero byte invented or a slice index of usize::MAX)."""
+    F = ctx.facts
+    n = 0
+    for f in F.fns:
+        if not (f.self_adt and last_seg(f.self_adt) == 'LZDecoder' and f.kind != 'closure'):
+            continue
+        if 'Result' not in str(f.d.get('output')):
+            continue
+        prov = Prov(f)
+        dist = [i for i, dbg in enumerate(f.d.get('debug') or []) if dbg['name'] == 'dist' and not dbg['place']['p'] and dbg['place']['l'] <= f.arg_count]
+        if not dist:
+            continue
+        # blocks that compute X - dist(-1): a Sub whose right operand derives from the parameter
+        uses = []
+        for bi, b in enumerate(f.blocks):
+            if b['cleanup'] or bi not in f.reachable:
+                continue
+            for si, s in enumerate(b['stmts']):
+                if s['k'] == 'assign' and s['rv']['r'] == 'bin' and s['rv']['op'].startswith('Sub'):
+                    e = prov.rvalue(s['rv'], 0, '%d:%d' % (bi, si))
+                    rhs = _strip(e[3])
+                    if rhs[0] == 'param' and rhs[2] == 'dist' and any(_self_field(x) == 'pos' for x in expr_walk(e[2])):
+                        uses.append(bi)
+        if not uses:
+            continue
+        n += 1
+        key = '%s:distance-strictly-below-full' % f.key
+        bad = None
+        for ub in sorted(set(uses)):
+            ok = False
+            for sb, pol, cond in guards_of(f, ub, prov):
+                nc = norm_cmp(cond, pol) if cond[0] in ('bin', 'un') else None
+                if not nc or nc[0] not in ('Lt', 'Le'):
+                    continue
+                syms = {}
+                for x in expr_walk(nc[1]) + expr_walk(nc[2]) if isinstance(expr_walk(nc[1]), list) else list(expr_walk(nc[1])) + list(expr_walk(nc[2])):
+                    xs = _strip(x)
+                    if xs[0] == 'param' and xs[2] == 'dist':
+                        syms[expr_str(xs)] = 'dist'
+                    elif _self_field(xs) == 'full':
+                        syms[expr_str(xs)] = 'full'
+                la, lb = _lin(nc[1], syms), _lin(nc[2], syms)
+                if la is None or lb is None:
+                    continue
+                d = dict(la)
+                for k, v in lb.items():
+                    d[k] = d.get(k, 0) - v
+                # a - b < 0  (Lt)  => a - b <= -1 ;  a - b <= 0 (Le)
+                bound = -1 if nc[0] == 'Lt' else 0
+                c = d.get(1, 0)
+                if d.get('dist', 0) == 1 and d.get('full', 0) == -1 and set(d) <= {'dist', 'full', 1} and bound - c <= -1:
+                    ok = True
+            if not ok:
+                bad = ub
+                break
+        if bad is None:
+            ctx.ok(key, f.loc(uses[0]), 'every `pos - dist - 1` is reached only under dist < full')
+        else:
+            ctx.violation(key, f.loc(bad), 'the copy source `.. - dist - 1` is computed without a dominating guard that implies dist < full '
+                          '(the number of valid dictionary bytes): dist == full reads a byte that was never written (empty dictionary: '
+                          'assertion / subtraction overflow in debug, invented zero byte or slice index usize::MAX in release)')
+    if n == 0:
+        ctx.anchor_missing('LZDecoder method with a `dist` parameter that computes pos - dist')
+
+
+@rule('PENDING-PAIR-DEC', ['C07', 'C01'], floor=1)
+def pending_pair_dec(ctx):
+    """A match that does not fit below the output limit is remembered as (pending_len, pending_dist) and resumed by the
+    next read. The two fields are one record: a method of the LZ decoder that stores the remaining length must have
+    stored the distance of the same match on every path to its return (before or after, but on all of them) -
+    otherwise an early return (the copy that wraps the end of the cyclic buffer returns early when the limit is
+    reached inside it) leaves the distance of an OLDER match next to the new length, and the resumed copy takes
+    its bytes from the wrong place. Discovered: the pair = the two usize fields of LZDecoder that the resuming
+    method passes to the copy method."""
+    F = ctx.facts
+    ms = [f for f in F.fns if f.self_adt and last_seg(f.self_adt) == 'LZDecoder' and f.kind != 'closure']
+    pair = None
+    for f in ms:
+        prov = Prov(f)
+        for bi, t, c in f.calls():
+            g = [x for x in F.resolve_callee(c) if x.self_adt == f.self_adt]
+            if not g or len(t['args']) != 3:
+                continue
+            a = [_self_field(prov.operand(x, 0, '%d:T' % bi)) for x in t['args'][1:]]
+            if all(a) and a[0] != a[1]:
+                pair = (a[0], a[1], g[0], f)     # (dist field, len field, copy method, resumer)
+    if pair is None:
+        return ctx.anchor_missing('LZDecoder method that resumes a pending match (passes two of its own fields to the copy method)')
+    dfield, lfield, copy, resumer = pair
+    n = 0
+    for f in ms:
+        prov = Prov(f)
+        stores = list(_self_stores(f, prov))
+        lst = [(bi, si) for bi, si, fld, e in stores if fld == lfield and not (e[0] == 'const')]
+        if not lst:
+            continue
+        n += 1
+        key = '%s:%s-and-%s-stored-together' % (f.key, lfield, dfield)
+        dst = {bi for bi, si, fld, e in stores if fld == dfield}
+        bad = None
+        for bi, si in lst:
+            # every return reachable from the length store must be cut off by a distance store, unless one dominates the length store
+            if any(f.dominates(db, bi) for db in dst):
+                continue
+            free = f.reach_from([bi], stop=dst) if bi not in dst else set()
+            rets = [b for b in free if f.blocks[b]['term']['k'] == 'return']
+            if rets:
+                bad = (bi, rets[0])
+                break
+        if bad is None:
+            ctx.ok(key, f.loc(lst[0][0]), 'the distance is stored on every path on which the remaining length is stored')
+        else:
+            ctx.violation(key, f.loc(bad[0]), 'a path stores the remaining length of a match in `%s` and returns (%s) without storing its '
+                          'distance in `%s`: the resumed copy (%s) uses the distance of an earlier match' % (
+                              lfield, f.loc(bad[1]), dfield, resumer.key))
+    if n == 0:
+        ctx.anchor_missing('a method storing a non-constant value into LZDecoder.%s' % lfield)
